@@ -44,7 +44,7 @@ def parse_model(line):
 
 
 def run_interp_check(pid, gen, fields, counts, tier, seed, rule, design_ref, extra_assumptions=(), known_sig=None,
-                     max_dropped=0.10, impl_oracle=None, expectations=()):
+                     max_dropped=0.10, impl_oracle=None, expectations=(), extra=None):
     """expectations: directed programs with what the PROPERTY says they must yield (not the model):
     dicts {src, field, want, why, finding (optional id of a known_findings.txt entry)}"""
     res = Result(pid, tier, seed)
@@ -125,8 +125,10 @@ def run_interp_check(pid, gen, fields, counts, tier, seed, rule, design_ref, ext
                     res.known(e["finding"], "%s :: %s (got %s, the property requires %s)" % (e["finding"], e["why"], got, e["want"]))
                     continue
                 mism += 1
-                res.violation({"property": pid, "kind": "the implementation contradicts the property on a directed program: " + e["why"],
-                               "source": e["src"], "field": e["field"], "required": e["want"], "impl": rec["impl"]})
+                if len(res.violations) < 12:
+                    res.violation({"property": pid, "kind": "the implementation contradicts the property on a directed program: " + e["why"],
+                                   "source": e["src"], "field": e["field"], "required": e["want"], "impl": rec["impl"]})
+        extra_cov = extra(res, scratch, harness) if extra else {}
         ndropped = sum(dropped.values())
         if cases and ndropped > max_dropped * len(cases):
             raise CheckError("%d of %d programs are outside the modelled fragment (%s): the check would pass thinly"
@@ -154,6 +156,7 @@ def run_interp_check(pid, gen, fields, counts, tier, seed, rule, design_ref, ext
             "samples": [{"src": c["src"][:600], "impl": c["impl"]} for c in cases[len(cases) // 2: len(cases) // 2 + 2]],
             "make_ok": ok_make,
         }
+        res.coverage.update(extra_cov or {})
         res.assumptions = ["programs of fragment F1 (nil, bool, int64, float64, string, []interface{}, map[interface{}]interface{}, "
                            "script and host functions, modules); others are dropped and counted",
                            "Options.Debug = false; fresh environment holding only the host pool"] + list(extra_assumptions)
